@@ -440,7 +440,7 @@ fn run_inner(sc: &J) -> Result<Option<String>, String> {
         // C03/C04/C15: write `datums` with `codec` (null|deflate) in blocks of `per_block` values, read back: same values
         "container_roundtrip" => {
             let schema = Schema::parse_str(sc["schema"].as_str().ok_or("schema")?).map_err(|e| e.to_string())?;
-            let codec = match sc["codec"].as_str().unwrap_or("null") { "deflate" => apache_avro::Codec::Deflate(Default::default()), _ => apache_avro::Codec::Null };
+            let codec = parse_codec(sc["codec"].as_str().unwrap_or("null"));
             let per_block = sc["per_block"].as_u64().unwrap_or(u64::MAX) as usize;
             let mut w = apache_avro::Writer::builder().schema(&schema).writer(Vec::new()).codec(codec).build().map_err(|e| e.to_string())?;
             let mut vals = Vec::new();
@@ -459,7 +459,7 @@ fn run_inner(sc: &J) -> Result<Option<String>, String> {
         }
         // C15: codec round trip on a payload (hex) for codec null|deflate
         "codec_roundtrip" => {
-            let codec = match sc["codec"].as_str().unwrap_or("null") { "deflate" => apache_avro::Codec::Deflate(Default::default()), _ => apache_avro::Codec::Null };
+            let codec = parse_codec(sc["codec"].as_str().unwrap_or("null"));
             let payload = jhex(sc, "payload");
             let mut buf = payload.clone();
             codec.compress(&mut buf).map_err(|e| e.to_string())?;
@@ -567,6 +567,69 @@ fn run_inner(sc: &J) -> Result<Option<String>, String> {
                 Err(e) => Ok(Some(format!("cannot open: {e}"))),
             }
         }
+        // C05/C14/C04: block-level mutations of a valid multi-block container file — for each block: byte size := 0 with the
+        // payload dropped; count + 1; last payload byte dropped (size adjusted); one garbage byte appended to the payload
+        // (size adjusted); count := 0 with the payload kept. Both iterators (Value and serde). Never a panic or a hang
+        // (wrapper); a block that declares more objects than its bytes hold must surface as an error, and the values of the
+        // blocks before the mutated one must be delivered unchanged.
+        "container_block_mutations" => {
+            let schema = Schema::parse_str("\"int\"").map_err(|e| e.to_string())?;
+            let codec = parse_codec(sc["codec"].as_str().unwrap_or("null"));
+            let mut header = Vec::new();
+            {
+                let mut w = apache_avro::Writer::builder().schema(&schema).writer(&mut header).codec(codec).marker([9u8; 16]).build().map_err(|e| e.to_string())?;
+                w.flush().map_err(|e| e.to_string())?;
+            }
+            let blocks: Vec<Vec<i32>> = vec![vec![1, 2], vec![3], vec![4, 5, 6], vec![700, -70000]];
+            let enc_int = |v: i32| -> Vec<u8> { apache_avro::to_avro_datum(&schema, Value::Int(v)).unwrap() };
+            let varint = |n: i64| -> Vec<u8> { apache_avro::to_avro_datum(&Schema::Long, Value::Long(n)).unwrap() };
+            for bi in 0..blocks.len() {
+                for mutation in ["size0", "count+1", "cut1", "garbage1", "count0", "marker", "eof"] {
+                    if matches!(codec, apache_avro::Codec::Deflate(_)) && !matches!(mutation, "count+1" | "count0" | "marker" | "eof") { continue; }
+                    let mut file = header.clone();
+                    let mut before: Vec<i32> = Vec::new();
+                    for (i, b) in blocks.iter().enumerate() {
+                        let mut payload: Vec<u8> = b.iter().flat_map(|v| enc_int(*v)).collect();
+                        let mut count = b.len() as i64;
+                        if i == bi {
+                            match mutation { "size0" => payload.clear(), "count+1" => count += 1, "cut1" => { payload.pop(); }, "garbage1" => payload.push(0x80), _ => count = 0 }
+                        } else if i < bi { before.extend(b.iter()); }
+                        if matches!(codec, apache_avro::Codec::Deflate(_)) { codec.compress(&mut payload).map_err(|e| e.to_string())?; }
+                        file.extend(varint(count)); file.extend(varint(payload.len() as i64)); file.extend(&payload); file.extend_from_slice(&[9u8; 16]);
+                        if i == bi && mutation == "marker" { let l = file.len(); file[l - 16] ^= 0x40; }
+                        if i == bi && mutation == "eof" { let l = file.len(); file.truncate(l - 7); break; }
+                    }
+                    let must_err = matches!(mutation, "size0" | "count+1" | "cut1" | "marker" | "eof");
+                    // Value iterator
+                    let rd = apache_avro::Reader::new(&file[..]).map_err(|e| format!("header: {e}"))?;
+                    let items: Vec<_> = rd.take(64).collect();
+                    if let Some(p) = items.iter().position(|r| r.is_err()) { if p + 1 != items.len() {
+                        return Ok(Some(format!("block {bi} mutation {mutation}: the iterator went on after its first error (item {p} of {}): C14 latch", items.len())));
+                    } }
+                    let oks: Vec<i32> = items.iter().take_while(|r| r.is_ok()).filter_map(|r| match r { Ok(Value::Int(i)) => Some(*i), _ => None }).collect();
+                    if oks.len() < before.len() || oks[..before.len()] != before[..] {
+                        return Ok(Some(format!("block {bi} mutation {mutation}: the values of the earlier blocks {before:?} were not delivered first: {oks:?}")));
+                    }
+                    if must_err && !items.iter().any(|r| r.is_err()) {
+                        return Ok(Some(format!("block {bi} mutation {mutation}: no error surfaced, values {oks:?}")));
+                    }
+                    // serde iterator
+                    let rd = apache_avro::Reader::new(&file[..]).map_err(|e| format!("header: {e}"))?;
+                    let items: Vec<_> = rd.into_deser_iter::<i32>().take(64).collect();
+                    if let Some(p) = items.iter().position(|r| r.is_err()) { if p + 1 != items.len() {
+                        return Ok(Some(format!("block {bi} mutation {mutation} (serde iterator): the iterator went on after its first error (item {p} of {}): C14 latch", items.len())));
+                    } }
+                    let oks: Vec<i32> = items.iter().take_while(|r| r.is_ok()).filter_map(|r| r.as_ref().ok().copied()).collect();
+                    if oks.len() < before.len() || oks[..before.len()] != before[..] {
+                        return Ok(Some(format!("block {bi} mutation {mutation} (serde iterator): the values of the earlier blocks {before:?} were not delivered first: {oks:?}")));
+                    }
+                    if must_err && !items.iter().any(|r| r.is_err()) {
+                        return Ok(Some(format!("block {bi} mutation {mutation} (serde iterator): no error surfaced, values {oks:?}")));
+                    }
+                }
+            }
+            Ok(None)
+        }
         // C05/C06/C16: schema-aware deserializer on arbitrary bytes: never panics (wrapper), and it agrees with the generic
         // decoder on whether the bytes are a complete datum. `as`: "bytes" | "json" (serde_json::Value) | "unit_vec"
         "deser_datum" => {
@@ -634,7 +697,7 @@ fn run_inner(sc: &J) -> Result<Option<String>, String> {
         }
         // C15: round trip of a run of `len` copies of `byte` (highly compressible, larger than codec windows)
         "codec_roundtrip_run" => {
-            let codec = match sc["codec"].as_str().unwrap_or("null") { "deflate" => apache_avro::Codec::Deflate(Default::default()), _ => apache_avro::Codec::Null };
+            let codec = parse_codec(sc["codec"].as_str().unwrap_or("null"));
             let payload = vec![sc["byte"].as_u64().unwrap_or(0) as u8; sc["len"].as_u64().unwrap_or(0) as usize];
             let mut buf = payload.clone();
             codec.compress(&mut buf).map_err(|e| e.to_string())?;
@@ -724,6 +787,42 @@ fn run_inner(sc: &J) -> Result<Option<String>, String> {
             }
             Ok(None)
         }
+        // C15/C04: every codec x files whose blocks shrink and grow (a later block's compressed bytes shorter than the previous
+        // block's decompressed bytes, and the reverse) x compressible and incompressible payloads: what was written is read back
+        "container_codec_blocks" => {
+            let schema = Schema::parse_str("\"string\"").map_err(|e| e.to_string())?;
+            let codecs: Vec<apache_avro::Codec> = vec![apache_avro::Codec::Null, apache_avro::Codec::Deflate(Default::default()), apache_avro::Codec::Snappy,
+                apache_avro::Codec::Zstandard(Default::default()), apache_avro::Codec::Bzip2(Default::default()), apache_avro::Codec::Xz(Default::default())];
+            let mut x = 0x9E3779B97F4A7C15u64;
+            let mut noise = |n: usize| -> String { (0..n).map(|_| { x ^= x << 13; x ^= x >> 7; x ^= x << 17; (b'!' + (x % 90) as u8) as char }).collect() };
+            for codec in codecs {
+                for layout in [vec![200usize, 1, 50, 1, 0, 3], vec![1, 200, 1], vec![3], vec![1, 1, 1, 1]] {
+                    let mut w = apache_avro::Writer::builder().schema(&schema).writer(Vec::new()).codec(codec).marker([5u8; 16]).build().map_err(|e| e.to_string())?;
+                    let mut all = Vec::new();
+                    for (bi, k) in layout.iter().enumerate() {
+                        for j in 0..*k {
+                            let v = if (bi + j) % 3 == 0 { noise(40 + j % 7) } else { format!("record-{bi}-{j}-{}", "z".repeat(j % 50)) };
+                            w.append_value_ref(&Value::String(v.clone())).map_err(|e| e.to_string())?;
+                            all.push(Value::String(v));
+                        }
+                        w.flush().map_err(|e| e.to_string())?;
+                    }
+                    let file = w.into_inner().map_err(|e| e.to_string())?;
+                    let rd = apache_avro::Reader::new(&file[..]).map_err(|e| format!("{codec:?}: {e}"))?;
+                    match rd.collect::<Result<Vec<Value>, _>>() {
+                        Ok(vs) if vs == all => {}
+                        Ok(vs) => return Ok(Some(format!("codec {codec:?} blocks {layout:?}: wrote {} values, read back {} (first difference at {:?})", all.len(), vs.len(), vs.iter().zip(all.iter()).position(|(a, b)| a != b)))),
+                        Err(e) => return Ok(Some(format!("codec {codec:?} blocks {layout:?}: wrote {} values, reading fails: {e}", all.len()))),
+                    }
+                    let rd = apache_avro::Reader::new(&file[..]).map_err(|e| format!("{codec:?}: {e}"))?;
+                    match rd.into_deser_iter::<String>().collect::<Result<Vec<String>, _>>() {
+                        Ok(vs) if vs.len() == all.len() && vs.iter().zip(all.iter()).all(|(a, b)| Value::String(a.clone()) == *b) => {}
+                        other => return Ok(Some(format!("codec {codec:?} blocks {layout:?} (serde iterator): wrote {} values, read back {:?}", all.len(), other.map(|v| v.len()).map_err(|e| e.to_string())))),
+                    }
+                }
+            }
+            Ok(None)
+        }
         // C01/C02: big-decimal values with scales at and beyond the i32 range round-trip (compared as (unscaled, scale))
         "bigdecimal_scales" => {
             use std::str::FromStr;
@@ -797,6 +896,17 @@ fn matrix_item<T: serde::Serialize>(st: &str, jv: &T, ref_value: Value) -> Resul
         }
     }
     Ok(None)
+}
+
+pub fn parse_codec(name: &str) -> apache_avro::Codec {
+    match name {
+        "deflate" => apache_avro::Codec::Deflate(Default::default()),
+        "snappy" => apache_avro::Codec::Snappy,
+        "zstandard" => apache_avro::Codec::Zstandard(Default::default()),
+        "bzip2" => apache_avro::Codec::Bzip2(Default::default()),
+        "xz" => apache_avro::Codec::Xz(Default::default()),
+        _ => apache_avro::Codec::Null,
+    }
 }
 
 pub struct FaultySink { pub data: Vec<u8>, pub accept: usize, pub fail_at: Option<usize>, pub calls: usize }
